@@ -28,6 +28,10 @@ pub(crate) static mut SCRIPTED: bool = false;
 pub(crate) static mut SCRIPT: [u8; 4] = [9; 4];
 pub(crate) static mut SCRIPT_POS: usize = 0;
 pub(crate) static mut SCRIPT_MISBEHAVE: bool = false;
+/// when set, fragments are served from SYM_CONTENT (bytes filled in by the harness, usually symbolic) instead of
+/// the fixed file
+pub(crate) static mut USE_SYM_CONTENT: bool = false;
+pub(crate) static mut SYM_CONTENT: [u8; 32] = [0; 32];
 pub(crate) fn scripted_poll(r: &mut HttpRangeRequest) -> Option<Poll<Option<Result<Bytes, HttpReaderError>>>> {
     if !unsafe { SCRIPTED } {
         return None;
@@ -52,7 +56,11 @@ pub(crate) fn scripted_poll(r: &mut HttpRangeRequest) -> Option<Poll<Option<Resu
             let a = r.offset as usize;
             r.offset += n;
             r.size = r.size.wrapping_sub(n);
-            Poll::Ready(Some(Ok(Bytes::from_static(&CONTENT[a..a + n as usize]))))
+            if unsafe { USE_SYM_CONTENT } {
+                Poll::Ready(Some(Ok(Bytes::from_static(unsafe { &SYM_CONTENT[a..a + n as usize] }))))
+            } else {
+                Poll::Ready(Some(Ok(Bytes::from_static(&CONTENT[a..a + n as usize]))))
+            }
         }
     })
 }
